@@ -255,6 +255,9 @@ def parse_operand(s):
     if re.match(r'^[\w<]', s) and '::' in s:
         # a function item named by its path (zero-sized fn item passed as a value)
         return ('const', 'ZeroSized: {' + s + '}')
+    if re.match(r'^[A-Z]\w*$', s):
+        # the constructor of a tuple struct passed as a function value (e.g. `.map(Element)`)
+        return ('const', 'ZeroSized: {' + s + '}')
     raise Unsupported(f'operand {s!r}')
 
 
